@@ -269,7 +269,8 @@ func c05Alphabet() []c05Cmd {
 		{kind: "del", form: "tags", tags: []string{"a"}},
 		{kind: "del", form: "svc-src", svc: "sb", host: "", path: "/x"},
 		{kind: "weight", form: "svc", svc: "sa", host: "foo.com", path: "/", w: 0.4},
-		{kind: "weight", form: "svc-tags", svc: "sa", host: "FOO.com", path: "/", w: 0.6, tags: []string{"a", "b"}},
+		{kind: "weight", form: "svc-tags", svc: "sa", host: "FOO.com", path: "/", w: 0.6, tags: []string{"b", "a"}}, // a set of tags: the order in the command is not the order of the target's list
+		{kind: "del", form: "tags", tags: []string{"b", "a", "b"}},
 		{kind: "weight", form: "src-tags", host: "foo.com", path: "/", w: 0.2, tags: []string{"a"}},
 		{kind: "weight", form: "svc", svc: "sb", host: "", path: "/x", w: 0},
 		{kind: "weight", form: "svc", svc: "sb", host: "foo.com", path: "/", w: -0.5}, // w <= 0 means "no fixed weight": takes back the 0.2 sb got with its add
@@ -309,7 +310,7 @@ func c05Script(alpha []c05Cmd, script []int) string {
 
 func TestVerifC05Commands(t *testing.T) {
 	L := ev.Begin("C05", "c05-commands", "model_checking",
-		"explicit-state BFS over route command scripts: 30 commands (two paths ordered differently by byte order and by letter-case-blind order, a destination with credentials, a target with weight 1 next to others, '#' inside a destination and a tag, a backslash inside a tag, a non-positive weight on a target that has a fixed one, paths differing only in letter case, an option value containing '=', add incl. host-case / weight / tags / opts / near-miss destination variants, the 5 del forms, the 3 weight forms); state = canonical reference table; every (state,command) transition rebuilds the real table with NewTable(shortest script + command) and compares hosts, routes, ordered targets (service, url, fixed weight, tags, opts) with the reference interpreter; every state round-trips through Parse(t.String()). non-trivial = transition that changes the state")
+		"explicit-state BFS over route command scripts: 31 commands (tag sets named in another order than the target lists them and with a repeated tag, two paths ordered differently by byte order and by letter-case-blind order, a destination with credentials, a target with weight 1 next to others, '#' inside a destination and a tag, a backslash inside a tag, a non-positive weight on a target that has a fixed one, paths differing only in letter case, an option value containing '=', add incl. host-case / weight / tags / opts / near-miss destination variants, the 5 del forms, the 3 weight forms); state = canonical reference table; every (state,command) transition rebuilds the real table with NewTable(shortest script + command) and compares hosts, routes, ordered targets (service, url, fixed weight, tags, opts) with the reference interpreter; every state round-trips through Parse(t.String()). non-trivial = transition that changes the state")
 	alpha := c05Alphabet()
 	maxDepth := 5
 	if ev.Thorough() {
